@@ -1,6 +1,6 @@
 (* C14 — Keyshare protocol: server bound to commitment, both sides agree on the commitments. *)
 From Coq Require Import ZArith List.
-From Gabi Require Import ModArith GoSem ParamsDef Keys HashTool Core CL Prover Keyshare.
+From Gabi Require Import ModArith GoSem ParamsDef Keys HashTool Core CL Prover Keyshare DiscloseComplete KeyshareComplete.
 Import ListNotations.
 Open Scope Z_scope.
 
@@ -27,3 +27,38 @@ Theorem user_server_commitments_agree :
   db_commit pk b skr (Some (powx (pk_N pk) r0 randomizer)) =
     Ok ([a; (z * powx (pk_N pk) r0 randomizer) mod pk_N pk], b').
 Proof. exact user_server_commitments_agree_lem. Qed.
+
+(* Completeness of the joint proof: the user commits with the server's commitment R_0^rS merged in and answers the
+   challenge; the server adds rS + c*skS to the user's response for the secret; the merged proof is exactly the proof a
+   single holder of the joint secret skU + skS would have made with randomizer rU + rS, so the verifier reconstructs the
+   hashed commitment -- for every valid signature on the joint secret, disclosed set, randomizers and challenge. *)
+Theorem keyshare_joint_complete :
+  forall pk, 1 < pk_N pk ->
+  forall is_prime sg rest disclosed und eC vC rand c skU skS rU rS a e v r0 l bU' pU pJ ur (rnd : Z -> Z),
+  let attrsU := skU :: rest in
+  let attrsJ := (skU + skS) :: rest in
+  cl_verify pk is_prime (mkSig (sig_A sg) (sig_E sg) (sig_V sg) None) attrsJ = Ok true ->
+  sig_A sg = Some a -> sig_E sg = Some e -> sig_V sg = Some v ->
+  get_undisclosed disclosed (Z.of_nat (length attrsU)) = Ok und -> NoDup disclosed -> ~ In 0 disclosed ->
+  unitb pk a -> unitb pk (pk_S pk) -> unitb pk (pk_Z pk) -> (forall i, in_R pk i -> unitb pk (R_at pk i)) ->
+  (forall m, In m attrsJ -> 0 <= m) -> 0 <= skU -> 0 <= skS -> 0 <= rU -> 0 <= rS -> 0 <= c ->
+  bitlen skU <= Lm (pk_params pk) -> bitlen (skU + skS) <= Lm (pk_params pk) ->
+  index_R (pk_R pk) 0 = Ok r0 ->
+  (forall i, In i und -> i <> 0 -> lookup rand i = Some (rnd i)) ->
+  db_commit pk (mkDb sg eC vC rand disclosed und attrsU) rU (Some (powx (pk_N pk) r0 rS)) = Ok (l, bU') ->
+  db_create_proof pk bU' c = Ok pU ->
+  lookup_ptr (pd_AResp pU) 0 = Some ur ->
+  merge_proofP_D pU c (rS + c * skS + ur) = Ok pJ ->
+  exists z, l = [a; z] /\ reconstruct_z pk pJ = Ok z.
+Proof. exact keyshare_joint_complete_lem. Qed.
+
+(* The credential the user stores -- a signature carrying the server's part R_0^skS on the user's share -- verifies
+   exactly when the plain signature verifies on the joint secret. *)
+Theorem keyshare_signature_is_joint :
+  forall pk, 1 < pk_N pk ->
+  forall is_prime A E V skU skS rest r0 bs,
+  pk_R pk = r0 :: bs -> 0 <= skU -> 0 <= skS ->
+  bitlen skU <= Lm (pk_params pk) -> bitlen (skU + skS) <= Lm (pk_params pk) ->
+  cl_verify pk is_prime (mkSig A E V (Some (powx (pk_N pk) r0 skS))) (skU :: rest) =
+  cl_verify pk is_prime (mkSig A E V None) ((skU + skS) :: rest).
+Proof. exact keyshare_signature_is_joint_lem. Qed.
